@@ -233,6 +233,25 @@ def run(ctx):
     ctx.ob('C29-WRAP.negative-position-does-not-wrap-around', pai, subs[0].ast, ok,
            '' if ok else 'py_array_index evaluates array[index] for a negative computed position: arr[-2] on a one-element array (position 1 - 2 = -1) returns the last item '
            'instead of NULL', node=subs[0].ast)
+    # ---------------------------------------------------------------- STEP
+    # a path step that does not apply to the value it meets (a key on a list, an index on a dict, anything on a scalar) means "no such item" -> NULL,
+    # as json_extract answers; _traverse therefore treats KeyError, IndexError *and* TypeError (list['key']) of the subscript as missing.  Otherwise
+    # one document of a different shape makes `'k' in d.data['c']` fail for the whole table (py_json_contains is used even when JSON1 is available)
+    tv = repo.fn('pony.orm.dbproviders.sqlite', '_traverse')
+    tries = [st for st in walk_no_nested(tv.node) if isinstance(st, ast.Try) and any(isinstance(x, ast.Subscript) and isinstance(x.ctx, ast.Load) for b in st.body for x in ast.walk(b))]
+    ctx.need(tries, 'C29-STEP: the guarded subscript of _traverse was not found')
+    for st in tries:
+        caught = set()
+        for h in st.handlers:
+            if h.type is None: caught |= {'KeyError', 'IndexError', 'TypeError'}
+            else:
+                for e in (h.type.elts if isinstance(h.type, ast.Tuple) else [h.type]):
+                    nme = dotted(e)
+                    caught |= {'KeyError', 'IndexError'} if nme == 'LookupError' else {'KeyError', 'IndexError', 'TypeError'} if nme in ('Exception', 'BaseException') else {nme}
+        miss = sorted({'KeyError', 'IndexError', 'TypeError'} - caught)
+        ctx.ob('C29-STEP.inapplicable-path-step-means-missing', tv, st, not miss,
+               '' if not miss else '_traverse lets %s escape from the subscript: a document whose value at that step has another shape (a list where a key is applied) aborts the '
+               'whole query with "user-defined function raised exception" instead of yielding NULL for that row' % ', '.join(miss), node=st)
 
 
 def quote_class_reason(pattern, Q):
@@ -257,6 +276,8 @@ def quote_class_reason(pattern, Q):
 
 
 MUTANTS = [
+    dict(id='C29-step', file='pony/orm/dbproviders/sqlite.py', fn='_traverse', old="        except (KeyError, IndexError, TypeError): return None", new="        except (KeyError, IndexError): return None", expect='C29-STEP'),
+    dict(id='C29-step2', file='pony/orm/dbproviders/sqlite.py', fn='_traverse', old="        except (KeyError, IndexError, TypeError): return None", new="        except (LookupError, TypeError): return None", expect='C29-STEP', benign=True),
     dict(id='C29-wrap', file='pony/orm/dbproviders/sqlite.py', fn='py_array_index', old="    if isinstance(index, int) and index < 0:\n        return None  # the absolute position was computed as length - k: the item lies before the start of the array\n", new="", expect='C29-WRAP'),
     dict(id='C29-nt', file='pony/orm/dbproviders/sqlite.py', fn='py_json_extract', old="    if type(result) in (list, dict):", new="    if type(result) not in (str, int, float):", expect='C29-NULLTEXT'),
     dict(id='C29-nt2', file='pony/orm/dbproviders/sqlite.py', fn='py_json_extract', old="    if type(result) in (list, dict):", new="    if isinstance(result, (list, dict)):", expect='C29-NULLTEXT', benign=True),
